@@ -64,7 +64,7 @@ def cases(rng, tier, shard, nshards, ctx):
         if i % nshards == shard:
             yield c
     for _ in range(NRANDOM[tier] // nshards):
-        yield R.gen_random(rng, maxdepth=rng.choice([2, 3, 4, 5, 5]))
+        yield R.gen_random(rng, maxdepth=rng.choice([2, 3, 4, 5, 5]), clean=rng.random() < 0.55)
     for _ in range(NMUSTFAIL[tier] // nshards):
         c = R.gen_mustfail(rng)
         if c:
@@ -161,6 +161,14 @@ def judge(A, obs):
     clean = [k for k in R.clean_keys(A) if k in got]
     if [k for k in got if k in set(clean)] != clean:
         devs.append(dev('key-order-of-untainted-nodes-differs', dict(observed=list(got)[:12], expected=list(exp)[:12])))
+    if not devs and not diff:
+        # same records, other key order: keys with tainted writers may appear earlier / later
+        for w in A.writers:
+            if w['name'] not in set(clean):
+                if w['drop']:
+                    mechs.add('F1')
+                if w['add']:
+                    mechs.add('F3')
     if not devs:
         if 'F1' in mechs:
             devs.append(dev('tainted-nodes-dropped', dict(keys=diff[:6]), known=R.KEY_F1))
